@@ -37,8 +37,10 @@ domain flags (read off docstrings / code)
   simple_ev  the leading eigenvector must be non-degenerate (ARPACK start
              vector is random): connected graphs, tolerance 1e-6; for
              N >= 21 eigsh no longer spans the whole space (ncv = 20 < N) and
-             delivers the vector only to its convergence accuracy (measured
-             against dense eigh on P21..R209: up to 3e-6) -> tolerance 2e-5
+             delivers the vector only to its convergence accuracy; with
+             the library's shift sigma = N^2 (W^2) that accuracy degrades
+             like sigma (measured against dense eigh: 3e-6 at N=21, 2e-5 at
+             150, 5e-4 at 300) -> tolerance 4e-8 * max(N, W)^2
   f32    passes float32 storage or kernels: rtol 2e-5 / atol 2e-6
   cancel random-walk betweenness: sums of O(N^2) signed potential differences
          weighted by w_j*w_s*w_t; values that are exactly 0 in exact arithmetic
